@@ -25,6 +25,7 @@ class Knobs:
         self.nested_targets = 0.3    # bias towards targets nested in orthogonal regions / history
         self.flags = 4               # number of boolean context flags v0..vk used by guards
         self.cflags = 3              # c0..ck used by contract conditions
+        self.send_names = EVENTS     # names used by send(): disjoint from triggers ⇒ no self-sustaining loops
         self.no_state_names = False  # code never mentions state names (C17)
         self.avoid_nondet = True     # transitions of one state on one event get distinct priorities
         self.history_focus = 0.0     # probability, per history state, of adding leave / come-back transitions
@@ -71,9 +72,9 @@ class ChartGen:
             elif c < 0.5 + k.sends:
                 kind = r.random()
                 if kind < 0.6:
-                    stmts.append("send('%s', v=x, b=%s)" % (r.choice(EVENTS), r.choice(['True', 'False', 'x > 2'])))
+                    stmts.append("send('%s', v=x, b=%s)" % (r.choice(k.send_names), r.choice(['True', 'False', 'x > 2'])))
                 elif kind < 0.8:
-                    stmts.append("send('%s', delay=%d, v=y, b=%s)" % (r.choice(EVENTS), r.randint(0, 3),
+                    stmts.append("send('%s', delay=%d, v=y, b=%s)" % (r.choice(k.send_names), r.randint(0, 3),
                                                                    r.choice(['True', 'False'])))
                 else:
                     stmts.append("notify('n%d', v=y)" % r.randint(0, 2))
